@@ -108,7 +108,8 @@ for m in metas:
     print(f"| {m['id']} | {esc(t)[:120]} (`{files[:60]}`) | {first(m)} | {esc(m.get('strengthening', '—'))} | {chk.get('kind')}: {how} |")
 print("""
 Limits this campaign showed, stated plainly: (1) the strength of every check is bounded by its
-generator — the catch rate at first sight rose from round to round (table above), not to one; (2) regions of known findings must be predicates on the *case*, as narrow as the
+generator — the catch rate at first sight (table above) stayed between a quarter and a half, because each round's agents were
+sent to the places the earlier rounds had not touched; (2) regions of known findings must be predicates on the *case*, as narrow as the
 defect: C07-A, C20-A and C10-C hid inside regions that were drawn too wide until an entry point
 outside the region was added or the region was narrowed; (3) a seeded change can break a *proof
 obligation of another property's driver* — drivers now import only model and generated files; (4) the
